@@ -48,7 +48,7 @@ ASSUMPTIONS = ['strengths are dyadic rationals, so float sums/products in tenpy 
                'operator names are opaque at the formal level (equal formal sums ⇒ equal operators, not conversely)']
 
 N_PROCS = min(12, os.cpu_count() or 1)
-ANCHOR_COVERAGE_NOTE = 'pending'
+ANCHOR_COVERAGE_NOTE = ('coverage round 2026-09-26 (coverage 7.x, quick tier seed 0, real side run in-process, line+branch): C10 alone before -> after: models/model.py 81% -> 88%, networks/terms.py 68% -> 86%, algorithms/exact_diag.py 69% -> 92%, models/lattice.py 43% -> 43% (C19 owns it), networks/mpo.py 25% -> 26% (C11 owns the MPO class); C10+C11 combined: model.py 81 -> 88, terms.py 71 -> 86, exact_diag.py 74 -> 92, mpo.py 55 -> 81')
 
 
 def nontrivial(case):
